@@ -9,6 +9,7 @@ import glob, os, re, shutil, subprocess, sys, time
 VERIF = os.path.dirname(os.path.dirname(os.path.abspath(__file__)))
 SCRATCH = "/tmp/vf_mut"
 CB = "sdk/include/opentelemetry/sdk/common/circular_buffer.h"
+CBR = "sdk/include/opentelemetry/sdk/common/circular_buffer_range.h"
 SL = "api/include/opentelemetry/common/spin_lock_mutex.h"
 BSP = "sdk/src/trace/batch_span_processor.cc"
 BLP = "sdk/src/logs/batch_log_record_processor.cc"
@@ -109,6 +110,8 @@ M = [
     ("mlp_flush_last_wins", "C02", "procs_c02", [], MLP,
      "    if (!processor->ForceFlush(std::chrono::duration_cast<std::chrono::microseconds>(timeout_ns)))\n    {\n      result = false;\n    }",
      "    result = processor->ForceFlush(std::chrono::duration_cast<std::chrono::microseconds>(timeout_ns));", r"C02:provider-flush"),
+    ("cbr_take_whole_second_span", "C11", "c11_circbuf_big", [], CBR,
+     "    return {first_, nostd::span<T>{second_.data(), n - first_.size()}};", "    return {first_, second_};", r"C11:"),
     ("meterctx_flush_last_wins", "C02", "meterctx_c02", [], MC,
      "    if (!std::static_pointer_cast<MetricCollector>(collector)->ForceFlush(\n            std::chrono::duration_cast<std::chrono::microseconds>(time_remaining)))\n    {\n      result = false;\n    }",
      "    result = std::static_pointer_cast<MetricCollector>(collector)->ForceFlush(\n        std::chrono::duration_cast<std::chrono::microseconds>(time_remaining));", r"C02:meter:flush"),
